@@ -710,6 +710,26 @@ impl Pool {
             shard.validate()?;
         }
 
+        // Shards are addressed by position, so their numbers must be exactly 0..n-1.
+        let mut shard_numbers = self
+            .shards
+            .keys()
+            .filter_map(|shard_idx| shard_idx.parse::<usize>().ok())
+            .collect::<Vec<usize>>();
+        shard_numbers.sort_unstable();
+        if shard_numbers.is_empty()
+            || shard_numbers
+                .iter()
+                .enumerate()
+                .any(|(position, number)| position != *number)
+        {
+            error!(
+                "Shards must be numbered consecutively starting at 0, got: {:?}",
+                self.shards.keys()
+            );
+            return Err(Error::BadConfig);
+        }
+
         for (option, name) in [
             (&self.shard_id_regex, "shard_id_regex"),
             (&self.sharding_key_regex, "sharding_key_regex"),
